@@ -24,6 +24,7 @@ type liveCase struct {
 	HTTP        *sim.HTTPSpec     // for panos, nsx
 	FrontEnd    string            // drc | do-approve
 	Compare     bool
+	Spelling    string // other spelling of the compare verb / flag on the command line
 	CheckBanner string // regexp; "" = not configured
 	Credentials string // content of credentials file
 	Timeout     int
@@ -133,7 +134,11 @@ func (lc *liveCase) command(env *run.Env, dir, home, base, simulate string) ([]s
 	if prog == "drc" {
 		argv = []string{bin}
 		if lc.Compare {
-			argv = append(argv, "-C")
+			if lc.Spelling != "" {
+				argv = append(argv, lc.Spelling)
+			} else {
+				argv = append(argv, "-C")
+			}
 		}
 		arg := lc.DeviceArg
 		if arg == "" {
@@ -148,6 +153,9 @@ func (lc *liveCase) command(env *run.Env, dir, home, base, simulate string) ([]s
 		act := "approve"
 		if lc.Compare {
 			act = "compare"
+			if lc.Spelling != "" {
+				act = lc.Spelling
+			}
 		}
 		argv = append(argv, act, lc.DevName)
 	}
